@@ -300,7 +300,7 @@ for _k in ('response', 'stream', 'channel', 'fnf'):
 SAS = SC + '.stop_all_streams'
 
 
-@harness('e.stop_all_streams', ['C11', 'C07', 'C10'], functions=[SAS, BASE + '.stop_all_streams', SC + '.finish_stream'],
+@harness('e.stop_all_streams', ['C11', 'C07', 'C10', 'C08'], functions=[SAS, BASE + '.stop_all_streams', SC + '.finish_stream'],
          replay='e_stop_all_streams',
          assumptions=['the stream table is finite; handlers are abstract (K-HANDLER): frame_received / dispose may raise any Exception '
                       '(they call application code) and do not register new streams',
